@@ -73,7 +73,11 @@ package grpcv3
 //@ func NewRequestContext
 //@   props C13 C08
 //@   ensures ret0 != nil && ret0.reqURL != nil
-//@   ensures ret0.reqURL.Path == pathUnescape(ret0.reqURL.RawPath)
+//@   ensures pathDecodable(ret0.reqURL.RawPath) ==> ret0.reqURL.Path == pathUnescape(ret0.reqURL.RawPath)
+// a request target that cannot be decoded (the HTTP services answer such a request with 400 before any
+// rule runs; Envoy passes it on) never reaches the pipeline with an empty path: conditions written
+// against the path (a prefix that must not be reachable) would silently not apply
+//@   ensures len(ret0.reqURL.RawPath) != 0 ==> len(ret0.reqURL.Path) != 0
 //@   ensures epath.n > old(epath.n) && hasEncodedSlash(epath.ret0[epath.n - 1]) && !contains(epath.ret0[epath.n - 1], "?") ==> hasEncodedSlash(ret0.reqURL.RawPath)
 // C13 "the same request view ... URL": the query the pipeline sees is the request's query - what
 // follows the first '?' of the request target Envoy hands over, unless the query attribute carries it
